@@ -196,7 +196,7 @@ def run(ctx):
         rule = 'U3'
         ok = reason is not None
         if not ok:
-            reason = T.guard_index(s) or T.guard_unwrap(s)
+            reason = T.guard_index(s) or T.guard_index_enumerate(s) or T.guard_unwrap(s)
             ok = reason is not None
         if not ok:
             ok, reason, rule = discharge(ctx, I, s, dict(layer=layer_ok, frame=frame_ok, cel=cel_ok, tilemap=tm_ok), need)
